@@ -305,7 +305,7 @@ theorem pop_cases (eps : List EP) (lb : List (Key × Nat)) (us : List Name) :
       cases t with
       | nil => exact ⟨e1, by simp, by simp⟩
       | cons e2 t2 =>
-        simp only
+        simp only [indexResult]
         have hlt : toU64 (lbGet lb (List.map EP.id (e1 :: e2 :: t2)) + 1) % (e1 :: e2 :: t2).length < (e1 :: e2 :: t2).length :=
           Nat.mod_lt _ (by simp)
         rw [List.getElem?_eq_getElem hlt]
